@@ -7,6 +7,7 @@ from ..ir import call_target
 from ..tables import base_name
 from .. import resolverules as RR
 
+RETRY_INLINED = True
 LEVEL = 'other'
 
 
